@@ -25,7 +25,7 @@ for x in sys.argv[3:]:
     det = out.get('detected_by', {})
     meta = {
         'id': f'{pid}-{x}',
-        'breaks_property': pid,
+        'breaks_property': pid[:3],
         'origin': 'independent sub-agent given only the property text and a scratch worktree',
         'needs_to_manifest': next((l.strip() for l in notes.splitlines()
                                    if 'need' in l.lower() and len(l) > 20), '')[:400],
